@@ -29,7 +29,17 @@ pub fn render(p: &J, l: usize) -> String {
     let mut s = String::new();
     let hs = size(p["hs"].as_str().unwrap(), l);
     if hs > 0 {
-        if p["hk"] == "chain" {
+        if p["hk"] == "stairs" {
+            // hs headers, each extending the previous path by l - 20 new keys (distinct names per stage)
+            let w = l - 20;
+            let mut pathv: Vec<String> = Vec::new();
+            for stage in 0..hs {
+                for _ in 0..w {
+                    pathv.push(format!("k{stage}"));
+                }
+                s.push_str(&format!("[{}]\n", pathv.join(".")));
+            }
+        } else if p["hk"] == "chain" {
             // every prefix is an array of tables: [[k]], [[k.k]], ... (an array and a table per level)
             for n in 1..=hs {
                 s.push_str(&format!("[[{}]]\n", path(n)));
